@@ -12,6 +12,23 @@ REQUIRED = ["DaeVerif.C06.Props." + n for n in (
 )]
 
 
+import re
+_NONAME = re.compile(r"err:(na|nf|needmore|missing)\b")
+_BADFRAME = re.compile(r"err:(eof|unknownframe|other:\S*)")
+
+
+def canon(line):
+    """What is compared between implementation and model.  The property knows "a name" / "no name" /
+    "timed out" / "connection error": WHICH sniffing error says "no name" (not applicable, not found,
+    need more, missing crypto) and which parse error rejects a frame is outside it; so are the
+    internal fields printed after ' # '."""
+    l = line.split(" # ", 1)[0]
+    l = _NONAME.sub("err:none", l)
+    if l.startswith("err:") or l.startswith("ok "):  # frames / uvar answers
+        l = _BADFRAME.sub("err:bad", l)
+    return l
+
+
 def poison_pool_overlay(ctx):
     """Build the harnesses against a copy of the outbound module whose buffer pools overwrite every
     buffer that is handed back (pool.Put / pool.PutBuffer), so that a use of released memory
@@ -39,14 +56,17 @@ def poison_pool_overlay(ctx):
         assert hook in src
         open(f, "w").write(src.replace(hook, hook + "\tfor i := range buf[:cap(buf)] {\n\t\tbuf[:cap(buf)][i] = 0xdd\n\t}\n", 1))
         gomod = open(os.path.join(REPO, "go.mod")).read()
-        lines = [l for l in gomod.split("\n") if not l.startswith("replace github.com/daeuniverse/outbound ")]
+        # drop an existing replacement of the module, written as a line or inside a `replace ( … )` block
+        lines = [l for l in gomod.split("\n")
+                 if not (l.strip().startswith("replace github.com/daeuniverse/outbound ")
+                         or (l.strip().startswith("github.com/daeuniverse/outbound ") and "=>" in l))]
         lines.append("replace github.com/daeuniverse/outbound => " + dst)
         alt = os.path.join(ctx.out, "go.mod.poison")
         open(alt, "w").write("\n".join(lines) + "\n")
         return {os.path.join(REPO, "go.mod"): alt}
-    except Exception as e:  # module layout changed: run without poisoning, say so
-        ctx.say("NOTE pool poisoning not applied:", repr(e))
-        return {}
+    except Exception as e:  # module layout changed: the harness cannot be built as specified
+        ctx.say("POOL-POISONING-FAILED (use-after-release of pooled buffers would be invisible):", repr(e))
+        return None
 
 
 def run(ctx):
@@ -62,7 +82,9 @@ def run(ctx):
     ctx.required_theorems(REQUIRED)
 
     poison = poison_pool_overlay(ctx)
-    ctx.cov["pool_poisoning"] = bool(poison)
+    if poison is None:
+        return 2
+    ctx.cov["pool_poisoning"] = True
     binp = ctx.go_test_build("component/sniffing",
                              ["component/sniffing/c06_test.go", "component/sniffing/c06_gen_test.go",
                               "component/sniffing/c06_time_test.go"], "c06",
@@ -77,8 +99,8 @@ def run(ctx):
     if not ctx.driver("c06drv", ops, model):
         ctx.proof_failures.append("model driver c06drv failed to run")
     # what follows " # " on an answer line is internal state (diagnostic only, see DESIGN §8)
-    mism = ctx.diff_streams(ops, impl, model, "c06", canon=lambda l: l.split(" # ", 1)[0])
-    diag = sum(1 for a, b in zip(read_lines(impl), read_lines(model)) if a != b) - len(mism)
+    mism = ctx.diff_streams(ops, impl, model, "c06", canon=canon)
+    diag = sum(1 for a, b in zip(read_lines(impl), read_lines(model)) if a != b and canon(a) == canon(b))
     ctx.cov["internal_state_differences_not_counted"] = max(diag, 0)
     for ln, op, im, mo in mism[:10]:
         ctx.report(f"implementation differs from proved model at line {ln}: impl `{im[:300]}` model `{mo[:300]}`",
@@ -98,7 +120,7 @@ def run(ctx):
         return 2
     if not ctx.driver("c06drv", tops, tmodel):
         ctx.proof_failures.append("model driver c06drv failed to run on c06time")
-    for ln, op, im, mo in ctx.diff_streams(tops, timpl, tmodel, "c06time")[:10]:
+    for ln, op, im, mo in ctx.diff_streams(tops, timpl, tmodel, "c06time", canon=canon)[:10]:
         ctx.report(f"timed stream sniffer differs from proved model at line {ln}: impl `{im[:300]}` model `{mo[:300]}`",
                    {"stream": "c06time", "line": ln, "op": op, "impl": im, "model": mo,
                     "replay": "VERIF_SEED=%d ./check C06 %s" % (ctx.seed, ctx.tier)})
@@ -124,7 +146,7 @@ def run(ctx):
         return 2
     if not ctx.driver("c06drv", fops, fmodel):
         ctx.proof_failures.append("model driver c06drv failed to run on c06flow")
-    for ln, op, im, mo in ctx.diff_streams(fops, fimpl, fmodel, "c06flow")[:10]:
+    for ln, op, im, mo in ctx.diff_streams(fops, fimpl, fmodel, "c06flow", canon=canon)[:10]:
         ctx.report(f"handlePkt differs from proved flow model at line {ln}: impl `{im[:300]}` model `{mo[:300]}`",
                    {"stream": "c06flow", "line": ln, "op": op, "impl": im, "model": mo,
                     "replay": "VERIF_SEED=%d ./check C06 %s" % (ctx.seed, ctx.tier)})
